@@ -15,6 +15,9 @@ Notation mat := (list (list Q)).
 Definition addQ : vec -> vec -> vec := vadd.
 Definition scalQ : Q -> vec -> vec := vscal.
 
+(* np.finfo(float).eps ** 2 *)
+Definition eps2Q : Q := 1 # (2 ^ 104).
+
 (* ---------------- linear solvers ---------------- *)
 Inductive lsolver := SLandweber | SCG | SCGN.
 Record case_lin := { cl_solver : lsolver; cl_M : mat; cl_Mt : mat; cl_wV : vec; cl_wW : vec;
@@ -42,7 +45,7 @@ Definition check_lin (k : case_lin) : bool :=
       (length st <=? length (cl_trace k))%nat
       && prefix_then_stay (cl_x0 k) (map (cg_x vec) st) (cl_trace k)
   | SCGN =>
-      let st := cgn_run vec vec addQ scalQ ipV addQ scalQ ipW A At (cl_b k) (cl_x0 k) (cl_niter k) in
+      let st := cgn_run vec vec addQ scalQ ipV addQ scalQ ipW A At eps2Q (cl_b k) (cl_x0 k) (cl_niter k) in
       (length st <=? length (cl_trace k))%nat
       && prefix_then_stay (cl_x0 k) (map (n_x vec vec) st) (cl_trace k)
   end.
@@ -233,16 +236,28 @@ Definition check_ls2 (k : case_ls2) : bool :=
   end.
 
 Record case_sd := { sd_obj : objective; sd_tau : Q; sd_disc : Q; sd_mni : nat; sd_est : bool; sd_alpha : Q;
-                    sd_tol : Q; sd_maxiter : nat; sd_x0 : vec; sd_trace : list vec; sd_err : option ls_res }.
+                    sd_tol : Q; sd_maxiter : nat; sd_x0 : vec; sd_trace : list vec; sd_err : option ls_res;
+                    (* a SECOND run with the same line-search object from another start: (x0', trace', error') *)
+                    sd_second : option (vec * list vec * option ls_res) }.
+Definition sd_end_match (r : option ls_res) (e : @sd_end Q) : bool :=
+  match r, e with
+  | None, SdDone => true
+  | Some r, SdLs m => ls_match r m
+  | _, _ => false
+  end.
 Definition check_sd (k : case_sd) : bool :=
-  let '(tr, e) := sd_loop vec addQ scalQ (lip (map (fun _ => 1) (sd_x0 k))) (oval (sd_obj k)) (ograd (sd_obj k))
-                          (sd_tau k) (sd_disc k) (sd_mni k) (sd_est k) (sd_tol k) (sd_maxiter k)
-                          (sd_alpha k) (sd_x0 k) in
-  vsclose (sd_trace k) tr
-  && match sd_err k, e with
-     | None, SdDone => true
-     | Some r, SdLs m => ls_match r m
-     | _, _ => false
+  let ip := lip (map (fun _ => 1) (sd_x0 k)) in
+  let run a x := sd_loop vec addQ scalQ ip (oval (sd_obj k)) (ograd (sd_obj k))
+                         (sd_tau k) (sd_disc k) (sd_mni k) (sd_est k) (sd_tol k) (sd_maxiter k) a x in
+  let '(tr, e) := run (sd_alpha k) (sd_x0 k) in
+  vsclose (sd_trace k) tr && sd_end_match (sd_err k) e
+  && match sd_second k with
+     | None => true
+     | Some (x0', tr', err') =>
+         let a' := sd_alpha_after vec addQ scalQ ip (oval (sd_obj k)) (ograd (sd_obj k)) (sd_tau k) (sd_disc k)
+                                  (sd_mni k) (sd_est k) (sd_tol k) (sd_maxiter k) (sd_alpha k) (sd_x0 k) in
+         let '(tr2, e2) := run a' x0' in
+         vsclose tr' tr2 && sd_end_match err' e2
      end.
 
 Inductive case :=
